@@ -103,6 +103,8 @@ pub struct Case {
   pub prefer: Vec<usize>,
   /// log every visible action (`A`/`L` lines)
   pub atomics: bool,
+  /// generator family (`fam=<name>` in the header; informative, shows in the evidence TAGs)
+  pub fam: String,
 }
 
 impl Case {
@@ -126,6 +128,9 @@ impl Case {
     }
     if self.atomics {
       h.push_str(" atomics=1");
+    }
+    if !self.fam.is_empty() {
+      h.push_str(&format!(" fam={}", self.fam));
     }
     h
   }
@@ -163,6 +168,7 @@ pub fn parse_cases(text: &str) -> Result<Vec<Case>, String> {
         budget: 20_000,
         prefer: Vec::new(),
         atomics: false,
+        fam: String::new(),
       };
       for kv in &ws[2..] {
         if let Some((k, v)) = kv.split_once('=') {
@@ -175,6 +181,7 @@ pub fn parse_cases(text: &str) -> Result<Vec<Case>, String> {
             "budget" => c.budget = v.parse().map_err(|_| format!("line {}: bad budget", ln + 1))?,
             "atomics" => c.atomics = v == "1" || v == "true",
             "prefer" => c.prefer = v.split(',').filter_map(|x| x.parse().ok()).collect(),
+            "fam" => c.fam = v.to_string(),
             _ => {}
           }
         }
